@@ -230,4 +230,7 @@ def check(ctx):
     # know about): shared with C19
     from .common import share
     share(ctx, 'C19', 'R6/C19.', ['R2.'])
+    # a rolled-back checkpoint that goes through text must come back with the same parameters: every
+    # floating-point member is written with full precision whatever the number of results (shared with C05)
+    share(ctx, 'C05', 'R7/C05.', ['iii.', 'vi.', 'vii.'])
 
